@@ -227,6 +227,12 @@ var families = map[string]familyFn{
 	"preds": func(g *gen.G, r *recorder, maxNodes, maxSteps int) {
 		d := g.Doc(maxNodes)
 		e := g.PredPath()
+		if g.R.Intn(8) == 0 {
+			// values that LOOK like numbers (white space of every kind, signs, exponents) under numeric comparisons
+			d = g.NumLookDoc(maxNodes)
+			e = &xast.Expr{T: "path", Abs: true, Steps: []xast.Step{{Ax: "descendant-or-self", Nt: xast.NT{K: "node"}},
+				{Ax: "child", Nt: xast.NT{K: []string{"any", "node", "text"}[g.R.Intn(3)]}, Preds: []*xast.Expr{g.NumLookPred()}}}}
+		}
 		o := xast.Opts{Abbrev: g.R.Intn(2) == 0, Space: " "}
 		for k := 0; k < 2; k++ {
 			r.record(d, e, o, 1+g.R.Intn(d.Len()), "set", nil, false, false)
